@@ -27,6 +27,23 @@ def classify(ctx, kind, t):
     return None
 
 
+def search(ctx, drv, mism):
+    """The verdicts differ. Grammars the implementation ACCEPTS although the model rejects them are run through the
+    termination oracle (VM in a child process, all inputs up to 3 characters from every rule)."""
+    cand = sorted([op for (i, op, imp, mod) in mism if imp == "ok"], key=lambda o: (len(o), o))[:150]
+    if not cand:
+        return None
+    d = os.path.join(ctx.rundir, "search"); os.makedirs(d, exist_ok=True)
+    f = os.path.join(d, "ops_in.txt"); open(f, "w").write("\n".join(cand) + "\n")
+    rc, out = sh([drv, "run", f, d], timeout=1500)
+    ops, orc = read_lines(os.path.join(d, "ops.txt")), read_lines(os.path.join(d, "oracle.txt"))
+    for op, v in zip(ops, orc):
+        if v.startswith("FAIL") and "does not terminate" in v:
+            return {"kind": "the validator accepts a stack-free grammar that does not terminate (VM killed by the time limit / native stack overflow on some input of length <= 3 from one of its rules)",
+                    "case": op, "oracle": v, "model_verdict": next((mod for (i, o, imp, mod) in mism if o == op), None), "accepted_but_model_rejects": len(cand)}
+    return None
+
+
 def run(ctx):
     cs = simple_property(
         ctx, MODULE, DRV, MODE,
@@ -38,7 +55,7 @@ def run(ctx):
             "error messages are mapped to kinds by text; spans are not compared (the left-recursion chain text depends on HashMap order)",
             "non-termination can only be observed (time limit / native stack); the termination theorem is about the reference semantics",
         ],
-        leancheck=[MODULE, "PestModel.Model.Validator"], classify=classify,
+        leancheck=[MODULE, "PestModel.Model.Validator"], classify=classify, search=search,
     )
     ok, out, bindir, _ = cargo_build("extras", [DRV])
     if ok:
